@@ -289,10 +289,11 @@ CHECKS = {
              "code is run with 2-16 barrier-released worker processes (random offsets and page orders, templates and #invoke) "
              "and with single-preemption schedules that pause one worker at every executed start-up line while another runs, "
              "with/without backup and bootstrap page; each worker's expansions are compared with a single process and the pages "
-             "table before/after. The model is tied to the code through the gated runs: a worker paused during start-up while "
-             "the other runs to completion is the model schedule 0^a 1^6 0^6 for some a, and Coq checks that what really "
-             "happened (which worker went wrong, what the database holds afterwards) is the outcome of one of these schedules "
-             "(about 115 gated runs per quick run). PARTIAL: real interleavings are sampled, lock time-outs are "
+             "table before/after. The model is tied to the code through the gated runs: Coq checks that what really happened "
+             "when one worker was paused during start-up while the other ran (which worker went wrong, what the database holds "
+             "afterwards) is the outcome of some schedule of the model's two workers - all 924 interleavings; without a backup "
+             "file that is the single good outcome (about 115 gated runs per quick run; runs in which a worker gave up waiting "
+             "for a lock are outside the model). PARTIAL: real interleavings are sampled, lock time-outs are "
              "timing-dependent and outside the model.",
         note=TRUST + "SQLite locking and the OS scheduler are outside the model.",
         ref="DESIGN.md section 4 C20"),
